@@ -43,6 +43,12 @@ type Opt =
   | Some of int
   | None
 
+type Poly =
+  | Pts of []int
+  | Nop
+
+type Holder = {tag: int; shape: Poly}
+
 let trI (tag:string) (v:int) =
   frt.Println tag
   v
